@@ -146,8 +146,10 @@ class Model:
         self.classes: Dict[str, ClassInfo] = {}
         self.funcs: Dict[str, FuncInfo] = {}
         self._mro_cache: Dict[str, List[str]] = {}
+        self._to_heal: List[str] = []
         for pkg in packages:
             self._load_package(pkg)
+        self._heal_all()
         for m in list(self.modules.values()):
             self._index_module(m)
         self.renamed_functions: List[str] = []
@@ -180,24 +182,44 @@ class Model:
                     modname = modname[: -len(".__init__")]
                 if rel in self.src_overrides:
                     src = self.src_overrides[rel]
-                    tree = self._healed(rel, src, ast.parse(src, filename=path))
+                    tree = ast.parse(src, filename=path)
+                    self._to_heal.append(modname)
                 elif self._reuse is not None and modname in self._reuse.modules and rel not in self._reuse.src_overrides:
                     old = self._reuse.modules[modname]
                     src, tree = old.src, old.tree
                 else:
                     with open(path, "r", encoding="utf-8") as f:
                         src = f.read()
-                    tree = self._healed(rel, src, ast.parse(src, filename=path))
+                    tree = ast.parse(src, filename=path)
+                    self._to_heal.append(modname)
                 self.modules[modname] = ModuleInfo(modname, path, rel, src, tree)
 
-    def _healed(self, rel: str, src: str, tree: ast.Module) -> ast.Module:
-        if not self._heal:
-            return tree
-        from .equiv import heal_module
+    def _heal_all(self) -> None:
+        """Equivalence layer (sa/equiv.py): first undo pure renames of functions/methods across all changed modules, then
+        compare every changed function with its reviewed form."""
+        if not self._heal or not self._to_heal:
+            return
+        import copy as _copy
 
-        new, log = heal_module(rel, src, tree)
-        self.heal_log.extend(log)
-        return new
+        from .equiv import _rename_everywhere, detect_renames, heal_module, reference_module
+
+        changed = [self.modules[n] for n in self._to_heal if reference_module(self.modules[n].relpath) is not None and reference_module(self.modules[n].relpath)[0] != self.modules[n].src]
+        renames: Dict[str, str] = {}
+        for m in changed:
+            for new, old in detect_renames(m.relpath, m.src, m.tree).items():
+                if new not in renames:
+                    renames[new] = old
+                    self.heal_log.append(f"{m.relpath}:{new}: a pure rename of `{old}` (bodies equal in normal form); analysed under the reviewed name")
+        for m in changed:
+            tree = m.tree
+            src = m.src
+            if renames:
+                tree = _copy.deepcopy(tree)
+                _rename_everywhere(tree, renames)
+                src = src + "\n# renamed"
+            new, log = heal_module(m.relpath, src, tree)
+            self.heal_log.extend(log)
+            m.tree = new
 
     def _index_module(self, m: ModuleInfo) -> None:
         for st in self._toplevel_stmts(m.tree.body):
